@@ -553,3 +553,227 @@ fn public_from_private(sk: &U256) -> (res: Sm2Result<Sm2PublicKey>)
         Err(Sm2Error::InvalidPublic)
     }
 }
+//@section spec local
+// ======================================================================================================
+// Scheme-level theorems (spec only, fully proved from the group axioms of sm2_math, ax_inv_n and ax_g_order)
+// ======================================================================================================
+// ---- generic group / scalar lemmas
+// [j*n]a = O
+proof fn thm_smul_order_mult(j: int, a: Pt) requires on_curve(a), j >= 0 ensures g_smul(j * N(), a) == Pt::Inf decreases j
+{
+    lemma_params();
+    if j > 0 {
+        thm_smul_order_mult(j - 1, a);
+        ax_group_order(a);
+        let n = N();
+        assert((j - 1) * n + n == j * n) by(nonlinear_arith);
+        assert((j - 1) * n >= 0) by(nonlinear_arith) requires j >= 1, n > 0;
+        lemma_smul_add((j - 1) * n, n, a);
+    } else {
+        let n = N(); assert(j * n == 0) by(nonlinear_arith) requires j == 0;
+    }
+}
+// [x]a = [x mod n]a
+proof fn thm_smul_mod(x: int, a: Pt) requires on_curve(a), x >= 0 ensures g_smul(x, a) == g_smul(x % N(), a)
+{
+    lemma_params();
+    let n = N();
+    let q = x / n;
+    let r = x % n;
+    lemma_fundamental_div_mod(x, n);
+    lemma_mod_pos_bound(x, n);
+    assert(q >= 0) by(nonlinear_arith) requires x == n * q + r, 0 <= r < n, x >= 0, n > 0;
+    assert(n * q == q * n) by(nonlinear_arith);
+    assert(q * n >= 0) by(nonlinear_arith) requires q >= 0, n > 0;
+    thm_smul_order_mult(q, a);
+    lemma_smul_add(q * n, r, a);
+}
+// congruent non-negative scalars give the same multiple
+proof fn thm_smul_congr(x: int, y: int, a: Pt) requires on_curve(a), x >= 0, y >= 0, x % N() == y % N() ensures g_smul(x, a) == g_smul(y, a)
+{ thm_smul_mod(x, a); thm_smul_mod(y, a); }
+// [x]([y]a) = [x*y]a
+proof fn thm_smul_mul(x: int, y: int, a: Pt) requires on_curve(a), x >= 0, y >= 0 ensures g_smul(x, g_smul(y, a)) == g_smul(x * y, a) decreases x
+{
+    if x > 0 {
+        thm_smul_mul(x - 1, y, a);
+        assert((x - 1) * y + y == x * y) by(nonlinear_arith);
+        assert((x - 1) * y >= 0) by(nonlinear_arith) requires x >= 1, y >= 0;
+        lemma_smul_add((x - 1) * y, y, a);
+    } else {
+        assert(x * y == 0) by(nonlinear_arith) requires x == 0;
+    }
+}
+// [x]([y]a) = [y]([x]a)
+proof fn thm_smul_swap(x: int, y: int, a: Pt) requires on_curve(a), x >= 0, y >= 0 ensures g_smul(x, g_smul(y, a)) == g_smul(y, g_smul(x, a))
+{ thm_smul_mul(x, y, a); thm_smul_mul(y, x, a); assert(x * y == y * x) by(nonlinear_arith); }
+
+// ---- modular core of the SM2 signature: s = (1+d)^-1 (k - r d), t = r + s  ==>  s + t d = k  (mod n)
+proof fn thm_sig_congruence(k: int, d: int, r: int, s: int)
+    requires 1 <= d <= N() - 2, 0 <= k < N(), s == (inv_n(1 + d) * ((k - (r * d) % N()) % N())) % N()
+    ensures (s + ((r + s) % N()) * d) % N() == k
+{
+    lemma_params();
+    let n = N();
+    let w = inv_n(1 + d);
+    let u = (k - (r * d) % n) % n;
+    let t = (r + s) % n;
+    lemma_small_mod((1 + d) as nat, n as nat);
+    ax_inv_n(1 + d);
+    // u = (k - r d) mod n
+    lemma_sub_mod_noop_right(k, r * d, n);
+    assert(u == (k - r * d) % n);
+    lemma_mod_twice(k - r * d, n);
+    assert(u % n == u);
+    // s (1+d) = u (mod n)
+    lemma_mul_mod_noop_general(w * u, 1 + d, n);
+    assert((s * (1 + d)) % n == ((w * u) * (1 + d)) % n);
+    assert((w * u) * (1 + d) == u * ((1 + d) * w)) by(nonlinear_arith);
+    lemma_mul_mod_noop_general(u, (1 + d) * w, n);
+    assert((u * ((1 + d) * w)) % n == (u * 1) % n);
+    assert(u * 1 == u);
+    assert((s * (1 + d)) % n == u);
+    // s + t d = s (1+d) + r d (mod n)
+    lemma_mul_mod_noop_general(r + s, d, n);
+    assert((t * d) % n == ((r + s) * d) % n);
+    lemma_add_mod_noop_right(s, t * d, n);
+    lemma_add_mod_noop_right(s, (r + s) * d, n);
+    assert((s + t * d) % n == (s + (r + s) * d) % n);
+    assert(s + (r + s) * d == s * (1 + d) + r * d) by(nonlinear_arith);
+    lemma_add_mod_noop_right(r * d, s * (1 + d), n);
+    assert((r * d + s * (1 + d)) % n == (r * d + u) % n);
+    lemma_add_mod_noop_right(r * d, k - r * d, n);
+    assert((r * d + u) % n == (r * d + (k - r * d)) % n);
+    lemma_small_mod(k as nat, n as nat);
+}
+
+// ---- GB/T 32918.2: a signature produced by the signing equations 6.1 is accepted by the verification equation 7.1
+// (the hypothesis 0 <= e of the statement is not needed by the proof)
+proof fn theorem_sign_then_verify(k: int, d: int, e: int, r: int, s: int)
+    requires 1 <= d <= N() - 2, 0 <= e, sig_from_nonce(k, d, e, r, s)
+    ensures valid_sig(g_smul(d, G()), e, r, s)
+{
+    lemma_params(); lemma_g_on_curve();
+    let n = N();
+    let pa = g_smul(d, G());
+    let t = (r + s) % n;
+    lemma_mod_pos_bound(e + pt_x(g_smul(k, G())), n);
+    lemma_mod_pos_bound(inv_n(1 + d) * ((k - (r * d) % n) % n), n);
+    lemma_mod_pos_bound(r + s, n);
+    assert(1 <= r < n && 1 <= s < n && 0 <= t < n);
+    thm_sig_congruence(k, d, r, s);
+    assert((s + t * d) % n == k);
+    // t != 0: otherwise s == k and r + s == n, i.e. r + k == n, which signing excludes
+    if t == 0 {
+        assert(t * d == 0) by(nonlinear_arith) requires t == 0;
+        lemma_small_mod(s as nat, n as nat);
+        assert(s == k);
+        lemma_fundamental_div_mod(r + s, n);
+        let q = (r + s) / n;
+        assert(q == 1) by(nonlinear_arith) requires r + s == n * q, 0 < r + s < 2 * n, n > 0;
+        assert(false);
+    }
+    // [s]G + [t]([d]G) = [s + t d]G = [k]G
+    assert(t * d >= 0) by(nonlinear_arith) requires t >= 0, d >= 0;
+    thm_smul_mul(t, d, G());
+    lemma_smul_add(s, t * d, G());
+    lemma_small_mod(k as nat, n as nat);
+    thm_smul_congr(s + t * d, k, G());
+    let q = g_add(g_smul(s, G()), g_smul(t, pa));
+    assert(q == g_smul(k, G()));
+    ax_g_order(k);
+    assert(q != Pt::Inf);
+}
+
+// ---- byte-string lemmas
+// xor with the same pad twice is the identity
+proof fn thm_xor_involution(m: Seq<u8>, t: Seq<u8>) requires t.len() == m.len() ensures s_xor(s_xor(m, t), t) =~= m
+{
+    let c = s_xor(m, t);
+    assert(c.len() == m.len());
+    assert forall|i: int| 0 <= i < m.len() implies #[trigger] s_xor(c, t)[i] == m[i] by {
+        let a = m[i]; let b = t[i];
+        assert(c[i] == a ^ b);
+        assert((a ^ b) ^ b == a) by(bit_vector);
+    }
+}
+// SEC1 encoding of an affine curve point has the announced length and decodes to the same point
+proof fn thm_sec1_roundtrip(q: Pt, compressed: bool) requires on_curve(q), q != Pt::Inf
+    ensures sec1(q, compressed).len() == c1_len(compressed), sec1_decodes(sec1(q, compressed), q)
+{
+    lemma_params(); lemma_pow256n_32();
+    let x = pt_x(q); let y = pt_y(q);
+    assert(q == Pt::Aff { x, y });
+    let b = sec1(q, compressed);
+    lemma_be_bytes_len(x, 32); lemma_be_bytes_len(y, 32);
+    lemma_be_roundtrip(x, 32); lemma_be_roundtrip(y, 32);
+    if compressed {
+        let tag = if y % 2 == 0 { 2u8 } else { 3u8 };
+        assert(b == seq![tag] + be_bytes(x, 32));
+        assert(b.len() == 33);
+        assert(b[0] == tag);
+        assert(b.subrange(1, 33) =~= be_bytes(x, 32));
+        assert(y % 2 == (b[0] as int - 2));
+    } else {
+        assert(b == seq![4u8] + be_bytes(x, 32) + be_bytes(y, 32));
+        assert(b.len() == 65);
+        assert(b[0] == 4u8);
+        assert(b.subrange(1, 33) =~= be_bytes(x, 32));
+        assert(b.subrange(33, 65) =~= be_bytes(y, 32));
+    }
+}
+// splitting a three-part concatenation
+proof fn thm_split3(a: Seq<u8>, b: Seq<u8>, c: Seq<u8>)
+    ensures ({ let s = a + b + c; let la = a.len() as int; let lb = b.len() as int; let lc = c.len() as int;
+        s.len() == la + lb + lc && s.subrange(0, la) =~= a && s.subrange(la, la + lb) =~= b && s.subrange(la + lb, la + lb + lc) =~= c
+        && s.subrange(la, s.len() - lc) =~= b && s.subrange(s.len() - lc, s.len() as int) =~= c && s.subrange(la + lb, s.len() as int) =~= c })
+{ }
+
+// ---- GB/T 32918.4: decryption 7.1 accepts every ciphertext produced by encryption 6.1 for the matching key pair
+// and returns the plaintext; the decoded C1 is [k]G
+proof fn theorem_decrypt_inverts_encrypt(k: int, d: int, m: Seq<u8>, compressed: bool, model: Sm2Model, c: Seq<u8>)
+    requires 1 <= d <= N() - 2, m.len() >= 1, enc_from_nonce(k, g_smul(d, G()), m, compressed, model, c)
+    ensures dec_ok(d, c, compressed, model, g_smul(k, G()), m)
+{
+    lemma_params(); lemma_g_on_curve();
+    let pa = g_smul(d, G());
+    let q = g_smul(k, G());
+    // C1 = [k]G is an affine curve point
+    ax_g_order(k); lemma_small_mod(k as nat, N() as nat);
+    lemma_smul_closed(k, G());
+    assert(q != Pt::Inf && on_curve(q));
+    let c1 = sec1(q, compressed);
+    thm_sec1_roundtrip(q, compressed);
+    // shared secret point: [d]([k]G) == [k]([d]G)
+    let sp = g_smul(k, pa);
+    thm_smul_swap(d, k, G());
+    assert(g_smul(d, q) == sp);
+    let t = s_kdf(xy_bytes(sp), m.len());
+    lemma_kdf_len(xy_bytes(sp), m.len());
+    let c2 = s_xor(m, t);
+    let c3 = s_c3(sp, m);
+    lemma_sm3_len(be_bytes(pt_x(sp), 32) + m + be_bytes(pt_y(sp), 32));
+    assert(c1.len() == c1_len(compressed) && c2.len() == m.len() && c3.len() == 32);
+    thm_xor_involution(m, t);
+    match model {
+        Sm2Model::C1C2C3 => {
+            thm_split3(c1, c2, c3);
+            assert(c == c1 + c2 + c3);
+            assert(c.subrange(0, c1_len(compressed)) == c1);
+            assert(ct_c2(c, compressed, model) == c2);
+            assert(ct_c3(c, compressed, model) == c3);
+        }
+        Sm2Model::C1C3C2 => {
+            thm_split3(c1, c3, c2);
+            assert(c == c1 + c3 + c2);
+            assert(c.subrange(0, c1_len(compressed)) == c1);
+            assert(ct_c2(c, compressed, model) == c2);
+            assert(ct_c3(c, compressed, model) == c3);
+        }
+    }
+    assert(m == s_xor(c2, s_kdf(xy_bytes(sp), c2.len())));
+}
+// corollary: decryption accepts (existential form used by the contract of decrypt)
+proof fn theorem_decrypt_accepts_encrypt(k: int, d: int, m: Seq<u8>, compressed: bool, model: Sm2Model, c: Seq<u8>)
+    requires 1 <= d <= N() - 2, m.len() >= 1, enc_from_nonce(k, g_smul(d, G()), m, compressed, model, c)
+    ensures dec_accept(d, c, compressed, model, m)
+{ theorem_decrypt_inverts_encrypt(k, d, m, compressed, model, c); }
